@@ -112,7 +112,7 @@ Step choose_step(HState const &h, Rng &rng, HOpts const &o){
         if ((fam == fam_global || fam == fam_sequence || fam == fam_fourier) && loaded + needed < o.max_points)
             w.push_back({Step::update, 1.5});
         if (o.construction && outs > 0 && (fam != fam_global || nested_global) && loaded + needed < o.max_points
-            && h.cfg.conformal.empty()) // the Newton inverse of the conformal map is less accurate than the 1e-12 node matching of loadConstructedPoints (DESIGN.md section 7)
+            && !g.isSetConformalTransformASIN()) // the Newton inverse of the conformal map is less accurate than the 1e-12 node matching of loadConstructedPoints (DESIGN.md section 7)
             w.push_back({Step::begin_c, 1.2});
         if (!g.getLevelLimits().empty()) w.push_back({Step::clear_limits, 0.2});
     }
@@ -166,7 +166,13 @@ Step choose_step(HState const &h, Rng &rng, HOpts const &o){
                 s.aw.resize((size_t) dims * (is_curved(s.type) ? 2 : 1));
                 for(size_t i=0; i<s.aw.size(); i++) s.aw[i] = (i < (size_t) dims) ? rng.range(1, 3) : rng.range(0, 2);
             }
-            if (s.type == type_tensor || s.type == type_iptensor || s.type == type_qptensor){ s.aw.clear(); s.depth = std::min(s.depth, cur_depth + 1); } // tensor depth multiplies the weights
+            if (s.type == type_tensor || s.type == type_iptensor || s.type == type_qptensor){
+                s.aw.clear(); s.depth = std::min(s.depth, cur_depth + 1); // tensor depth multiplies the weights
+                if (!h.cfg.custom){ // keep the full tensor (n_1d(level))^d within a few times the point cap
+                    auto full = [&](int lev)->double{ return std::pow((double) oned_num_points(g.getRule(), lev), (double) dims); };
+                    while (s.depth > 0 && full(s.depth) > 4.0 * o.max_points) s.depth--;
+                }
+            }
             if (is_optimized_sequence(g.getRule())) s.depth = std::min(s.depth, 10);
             if (h.cfg.custom) s.depth = std::min(s.depth, (s.type == type_level || s.type == type_curved || s.type == type_hyperbolic || s.type == type_tensor) ? 6 : 10); // the table has 8 levels
             if (fam == fam_fourier) s.depth = std::min(s.depth, (s.type == type_tensor || s.type == type_level) ? 4 : 12);
